@@ -135,7 +135,7 @@ def polarity_guard(cfg, n, pred):
     """First dominating fact (atom, truth, None) whose atom satisfies
     pred(atom); atoms are normalised (see guard_atoms): `if not x: return`
     followed by code yields (x, True) for that code."""
-    for (a, truth) in guard_atoms(cfg, n):
+    for (a, truth) in _all_atoms(cfg, n):
         try:
             if pred(a):
                 return (a, truth, None)
@@ -246,10 +246,63 @@ def guard_atoms(cfg, node):
     and disjunctions (false edge) split and comparisons normalised to their
     positive operator (`a != b` true  ==  `a == b` false)."""
     out = []
-    for (t, pol, _gn) in cfg.guards(node):
-        if isinstance(t, ast.expr):
-            _atoms(t, pol, out)
+    for a, _b in guard_groups(cfg, node):
+        out += a
     return out
+
+
+def guard_groups(cfg, node):
+    """Per dominating branch edge: (atoms as written, atoms with a test
+    value that was named immediately before the test put back in place, or
+    None when that is the same thing)."""
+    out = []
+    for (t, pol, gn) in cfg.guards(node):
+        if isinstance(t, ast.expr):
+            a = []
+            _atoms(t, pol, a)
+            u = _unhoist(gn, t)
+            b = None
+            if u is not t:
+                b = []
+                _atoms(u, pol, b)
+            out.append((a, b))
+    return out
+
+
+def _all_atoms(cfg, node):
+    out = []
+    for a, b in guard_groups(cfg, node):
+        out += a
+        if b:
+            out += b
+    return out
+
+
+def _unhoist(tf_node, t):
+    """`v = <cond>` immediately followed by `if v:` (or `if not v`, `if v
+    and ...`) is the test `if <cond>:` - the value was computed at the
+    branch.  The local is replaced by its expression so that facts do not
+    depend on whether a test was given a name first."""
+    import copy as _copy
+    test = tf_node.pred[0][0] if tf_node.pred else None
+    if test is None or test.kind != 'test' or len(test.pred) != 1:
+        return t
+    prev = test.pred[0][0]
+    if not (prev.kind == 'stmt' and isinstance(prev.ast, ast.Assign) and
+            len(prev.ast.targets) == 1 and
+            isinstance(prev.ast.targets[0], ast.Name)):
+        return t
+    name = prev.ast.targets[0].id
+    if not any(isinstance(x, ast.Name) and x.id == name
+               for x in ast.walk(t)):
+        return t
+
+    class T(ast.NodeTransformer):
+        def visit_Name(self, node):
+            if node.id == name and isinstance(node.ctx, ast.Load):
+                return _copy.deepcopy(prev.ast.value)
+            return node
+    return T().visit(_copy.deepcopy(t))
 
 
 def guarded(cfg, node, pattern, truth=True):
@@ -258,9 +311,10 @@ def guarded(cfg, node, pattern, truth=True):
     pat = _P(pattern) if isinstance(pattern, str) else pattern
     want = []
     _atoms(pat, truth, want)
+    have = _all_atoms(cfg, node)
     for (wp, wt) in want:
         if not any(at == wt and match(wp, a) is not None
-                   for a, at in guard_atoms(cfg, node)):
+                   for a, at in have):
             return False
     return True
 
@@ -271,7 +325,7 @@ def guard_match(cfg, node, pattern, truth=True):
     from mstatic.pattern import match, P as _P
     pat = _P(pattern) if isinstance(pattern, str) else pattern
     out = []
-    for a, at in guard_atoms(cfg, node):
+    for a, at in _all_atoms(cfg, node):
         if at == truth:
             b = match(pat, a)
             if b is not None:
@@ -341,8 +395,11 @@ def only_guards(cfg, node, allowed):
         want = []
         _atoms(_P(pat) if isinstance(pat, str) else pat, truth, want)
         pats += want
-    for a, t in guard_atoms(cfg, node):
-        if not any(t == wt and match(wp, a) is not None for wp, wt in pats):
+    def ok(atoms):
+        return all(any(t == wt and match(wp, a) is not None
+                       for wp, wt in pats) for a, t in atoms)
+    for a, b in guard_groups(cfg, node):
+        if not ok(a) and not (b and ok(b)):
             return False
     return True
 
